@@ -28,6 +28,41 @@ func TestVMSource_Exponentiate(t *testing.T) {
 	}
 }
 
+func TestVMSource_NegativeZeroFloat(t *testing.T) {
+	tests := sourceTestTable{
+		"negated zero literal keeps its sign": {
+			source: `
+				println((-0.0).inspect)
+				println((1.0 / -0.0).inspect)
+				nil
+			`,
+			wantStackTop: value.Nil,
+			wantStdout:   "-0.0\nStd::Float::NEG_INF\n",
+		},
+		"folded negative zero equals the runtime result": {
+			source: `
+				var a: Float = -1.5
+				var b: Float = 0.0
+				println((-1.5 * 0.0).inspect)
+				println((a * b).inspect)
+				nil
+			`,
+			wantStackTop: value.Nil,
+			wantStdout:   "-0.0\n-0.0\n",
+		},
+		"positive zero still uses the short instruction": {
+			source:       "0.0",
+			wantStackTop: value.Float(0).ToValue(),
+		},
+	}
+
+	for name, tc := range tests {
+		t.Run(name, func(t *testing.T) {
+			vmSourceTest(tc, t)
+		})
+	}
+}
+
 func TestVMSource_Modulo(t *testing.T) {
 	tests := sourceTestTable{
 		"Int64 % Int64": {
